@@ -580,3 +580,10 @@ Definition with_scan (c : cmd) : cmd :=
   | CFind _ _ es => CFind false false es
   | CClean d _ _ es => CClean d false false es
   end.
+
+(* the index a command evaluates its expressions on *)
+Definition qix (noscan : bool) (I : index) (A : archive) : index :=
+  if noscan then I else fst (scan (I, false) A).
+
+Definition ar_del_all (V : list bid) (A : archive) : archive :=
+  fold_left (fun B b => ar_del b B) V A.
